@@ -1,9 +1,73 @@
 import KG.Base.Json
-/-! Driver entry points for property C06 (filled in by the C06 model). -/
-namespace KG.Driver.C06
-open Lean
+import KG.Spec.TokenBucket
+/-! Driver entry points for property C06 (local token bucket).
 
-/-- `handle method args`: `none` when the method is unknown. -/
-def handle (_m : String) (_a : Json) : Option (Except String Json) := none
+Instants travel as decimal strings (nanoseconds since Go's zero time; they exceed 2^63). -/
+namespace KG.Driver.C06
+open Lean KG KG.Model.TokenBucket KG.Spec.TokenBucket
+
+def getBig (j : Json) (k : String) : Except String Int := do
+  let s ← J.getStr j k
+  match s.toInt? with
+  | some i => pure i
+  | none => throw s!"bad integer in {k}: {s}"
+
+/-- an op of a script: `{"t":"<ns>"}` or `{"rq":qps,"rb":burst}` -/
+def decodeOp (j : Json) : Except String (Sum Int (Nat × Nat)) :=
+  match j.getObjVal? "t" with
+  | .ok _ => do pure (.inl (← getBig j "t"))
+  | .error _ => do pure (.inr (← J.getNat j "rq", ← J.getNat j "rb"))
+
+def bools (l : List Bool) : Json := Json.arr (l.map J.bool).toArray
+
+/-- `C06.script {qps, burst, ops}`: the answers of the Float twin (must equal the real code's), of the exact
+    rational model with nanosecond truncation, and of the ideal bucket. -/
+def doScript (a : Json) : Except String Json := do
+  let qps ← J.getNat a "qps"
+  let burst ← J.getNat a "burst"
+  let ops ← (← J.getArr a "ops").toList.mapM decodeOp
+  let fops := ops.map fun | .inl t => F.FOp.acquire t | .inr (q, b) => F.FOp.resize q b
+  let rops := ops.map fun | .inl t => Op.acquire (t : Rat) | .inr (q, b) => Op.resize q b
+  let twin := (F.FBucket.runOps (F.FBucket.new qps burst) fops).1
+  let ns := (Bucket.runOps Arith.ns (Bucket.new qps burst) rops).1
+  let ideal := (Bucket.runOps Arith.ideal (Bucket.new qps burst) rops).1
+  pure <| J.obj [("twin", bools twin), ("ns", bools ns), ("ideal", bools ideal),
+    ("f32exact", J.bool (f32 qps == qps))]
+
+def decodeObs (j : Json) : Except String Obs :=
+  match j.getObjVal? "t" with
+  | .ok _ => do pure (.acquire ((← getBig j "t") : Rat) (← J.getBool j "ok"))
+  | .error _ => do pure (.resize (← J.getNat j "rq") (← J.getNat j "rb") (← J.getBool j "resized"))
+
+/-- `C06.judge {qps, burst, obs}`: the property's judges on an observed history. -/
+def doJudge (a : Json) : Except String Json := do
+  let qps ← J.getNat a "qps"
+  let burst ← J.getNat a "burst"
+  let obs ← (← J.getArr a "obs").toList.mapM decodeObs
+  let v := judgeGo qps burst [] {} obs
+  pure <| J.obj [("upper", J.bool v.upper), ("lower", J.bool v.lower), ("resize", J.bool v.resize)]
+
+/-- `C06.window {qps, burst, t0, t1, count}`: is `count ≤ ⌈burst + qps·(t1−t0)⌉ (+⌊qps/1e9⌋)`; also the bound. -/
+def doWindow (a : Json) : Except String Json := do
+  let p := paramsOf (← J.getNat a "qps") (← J.getNat a "burst")
+  let t0 ← getBig a "t0"
+  let t1 ← getBig a "t1"
+  let count ← J.getNat a "count"
+  let b := boundInt p ((t1 : Rat) - (t0 : Rat))
+  pure <| J.obj [("ok", J.bool (decide ((count : Int) ≤ b))), ("bound", J.int b)]
+
+/-- `C06.owed {qps, burst, d}`: `min(burst, ⌊qps·d⌋)` for `d` nanoseconds of idleness. -/
+def doOwed (a : Json) : Except String Json := do
+  let p := paramsOf (← J.getNat a "qps") (← J.getNat a "burst")
+  let d ← getBig a "d"
+  pure <| J.obj [("owed", J.nat (owed p (d : Rat)))]
+
+def handle (m : String) (a : Json) : Option (Except String Json) :=
+  match m with
+  | "script" => some (doScript a)
+  | "judge" => some (doJudge a)
+  | "window" => some (doWindow a)
+  | "owed" => some (doOwed a)
+  | _ => none
 
 end KG.Driver.C06
